@@ -258,10 +258,12 @@ def main():
     g.attempt([("predictor_tags", "list (N * N)")], "enc.rs:PredictorType::from_u8", ptags)
 
     def pngthr():
-        b = fn_body(enc, "flate_decode")
-        m = re.search(r"if\s+predictor\s*>\s*(\d+)\s*\{", b)
-        return m.group(1)
-    g.attempt([("png_threshold", "N")], "enc.rs:flate_decode", pngthr)
+        # smallest /Predictor value that selects the PNG un-prediction, and the TIFF value
+        b = fn_body(enc, "unpredict")
+        m = re.search(r"if\s+predictor\s*(>=|>)\s*(\d+)\s*\{", b)
+        t = re.search(r"else\s+if\s+predictor\s*==\s*(\d+)\s*\{", b)
+        return "%d%%Z" % (int(m.group(2)) + (1 if m.group(1) == ">" else 0)), "%d%%Z" % int(t.group(1))
+    g.attempt([("png_from", "Z"), ("tiff_pred", "Z")], "enc.rs:unpredict", pngthr)
 
     # further anchors are appended by gen/extract_*.py modules
     for modname in sorted(os.listdir(HERE)):
@@ -279,6 +281,7 @@ def main():
         lines.append("Definition %s : %s := %s." % (name, ty, term))
     text = "\n".join(lines) + "\n"
     old = None
+    os.makedirs(os.path.dirname(OUT), exist_ok=True)   # Gen/ holds only ignored files: absent in a fresh worktree
     if os.path.exists(OUT):
         with open(OUT) as f:
             old = f.read()
